@@ -18,7 +18,7 @@ pub fn trivia(r: &mut Rng) -> String {
             _ => {
                 s.push(';');
                 for _ in 0..r.below(6) {
-                    s.push(*r.pick(&['a', ' ', ')', '(', '"', '\\', ';', 'é', '#', '|']));
+                    s.push(*r.pick(&['a', ' ', ')', '(', '"', '\\', ';', 'é', '#', '|', '\r', '\t', '\x0c', '\'', '.', '1']));
                 }
                 s.push('\n');
             }
@@ -109,7 +109,84 @@ const SYM_TOKENS: &[&str] = &[
     "quote", "quasiquote", "unquote", "unquote-splicing", "e", "E", "x", "b", "d", "o", "f", "n",
 ];
 
+fn chars_from(r: &mut Rng, alphabet: &str, lo: u64, hi: u64) -> String {
+    let cs: Vec<char> = alphabet.chars().collect();
+    let n = r.range(lo, hi);
+    (0..n).map(|_| *r.pick(&cs)).collect()
+}
+
+/// A token assembled from character classes rather than picked from a list:
+/// number-like, symbol-like, character-like, string-like and '#'-forms, valid
+/// and nearly valid, so that coverage does not depend on the dictionaries.
+pub fn synth_token(r: &mut Rng) -> String {
+    let mut s = String::new();
+    match r.below(6) {
+        0 => {
+            s.push_str(*r.pick(&["", "", "", "#x", "#b", "#o", "#d", "#X", "#e", "#i"]));
+            s.push_str(*r.pick(&["", "", "-", "+"]));
+            let body = if r.chance(3, 4) { "0123456789" } else { "0123456789.eE+-abcdefABCDEF_/" };
+            let n = *r.pick(&[1u64, 2, 3, 5, 9, 17, 19, 20, 21, 25]);
+            s.push_str(&chars_from(r, body, 1, n));
+            if r.chance(1, 3) {
+                s.push('.');
+                let n = *r.pick(&[0u64, 1, 2, 5, 18, 22]);
+                s.push_str(&chars_from(r, "0123456789", 0, n));
+            }
+            if r.chance(1, 3) {
+                s.push(*r.pick(&['e', 'E']));
+                s.push_str(*r.pick(&["", "", "-", "+"]));
+                s.push_str(&chars_from(r, "0123456789", 0, 4));
+            }
+        }
+        1 => s.push_str(&chars_from(r, "abcxyzABC!$%&*/:<=>?@^_~+-.0123456789#|'\u{3bb}\u{e9}\u{2192}", 1, 6)),
+        2 => {
+            s.push_str("#\\");
+            s.push_str(&chars_from(r, "axXsn 0(;\u{3bb}\u{e9}\"", 1, 1));
+            s.push_str(&chars_from(r, "0123456789abcdefxpace\u{3bb}\u{e9}", 0, 5));
+        }
+        3 => {
+            s.push('?');
+            if r.chance(1, 2) {
+                s.push('\\');
+            }
+            s.push_str(&chars_from(r, "axNuU{}+^C-M\\01234567sde(\u{3bb}\u{e9}", 1, 4));
+        }
+        4 => {
+            s.push('"');
+            for _ in 0..r.below(6) {
+                match r.below(6) {
+                    0 => {
+                        s.push('\\');
+                        s.push_str(&chars_from(r, "abtnvfr\"\\|xuUN^CMesd01234567 \nq\u{e9}", 1, 1));
+                    }
+                    1 => {
+                        s.push_str("\\x");
+                        s.push_str(&chars_from(r, "0123456789abcdefABCDEFg", 0, 7));
+                        if r.chance(2, 3) {
+                            s.push(';');
+                        }
+                    }
+                    2 => s.push_str(&chars_from(r, "\u{3bb}\u{e9}\u{1f600}", 1, 1)),
+                    3 => s.push_str(*r.pick(&["\n", "\\\n  ", "\\ \n", "\t", "\r"])),
+                    _ => s.push_str(&chars_from(r, "ab ()#;'", 1, 2)),
+                }
+            }
+            if r.chance(19, 20) {
+                s.push('"');
+            }
+        }
+        _ => {
+            s.push('#');
+            s.push_str(&chars_from(r, "tfnuv8(:\\%!;|xbodei1a[il", 1, 4));
+        }
+    }
+    s
+}
+
 fn pick_token(r: &mut Rng) -> String {
+    if r.chance(1, 4) {
+        return synth_token(r);
+    }
     match r.below(10) {
         0 | 1 => (*r.pick(NUM_TOKENS)).to_string(),
         2 | 3 | 4 => (*r.pick(NEAR_MISS)).to_string(),
